@@ -270,6 +270,10 @@ def r035(ctx, rid):
             tr = [e for e in a.events if e.kind == 'try' and S.show(e.term) == want]
             r.check('Method/basic/%s:starts-collector' % meth, len(c) == 1 and len(tr) == 1, ctx.site(D.PROCESS, a.node), built=a.summary(), expected=want)
         r.info('slot-addressing call sites', None, built=n)
+        # ... and nothing else decides whether they do: the arms' whole ordered scripts equal the oracle (no extra guard, no extra effect)
+        from rules import arms as A
+        for key in (('Method', 'n', 'basic', 'Deliver'), ('Method', 'n', 'basic', 'Return'), ('Method', 'n', 'basic', 'GetOk'), ('Header', 'n', '-', '-'), ('Body', 'n', '-', '-')):
+            A.check_script(ctx, r, arms, key, why='a content frame must reach the collector / its addressee unconditionally')
 
 
 BLOCKING = {
